@@ -324,6 +324,13 @@ theorem after_time_split_lockstep_partial (c : SplitCfg σ) (body : σ → Resum
       (c.T false sj).trace = sj.trace.map (rnObs c.ρ) :=
   ⟨c.after_split_lockstep body hB fuel j sk sj hi hf h, rfl⟩
 
+/-- **The agenda list stays newest-first** (`SortedAg`: `eid`s strictly decreasing along the list and below the counter):
+it holds for an empty agenda and is kept by every API call and by every step, however the step ends — so the
+`SortedAg` hypothesis of the stage-3 theorems holds in every state reached from a fresh environment. -/
+theorem agenda_sorted_invariant (body : σ → Resume → Burst ℚ σ) (fuel : Nat) (s : KState ℚ σ) (hs : SortedAg s) :
+    (∀ self cl, SortedAg (doCall s self cl).1) ∧ (∀ s', (step body fuel s).st? = some s' → SortedAg s') :=
+  ⟨fun self cl => SortedAg.krel.doCall s self cl hs, fun s' h => SplitCfg.sortedAg_step body fuel s s' hs h⟩
+
 /-- **The fuel hypothesis follows from two invariants of the states of the uninterrupted run** (at step boundaries):
 `CondWF` — the operands of every condition are older than the condition — and `BuildAlloc` — a `_build_value` callback
 belongs to an allocated condition.  (Both hold in every reachable state of an API-only program; not proved here.) -/
